@@ -22,6 +22,9 @@ SHORT = {"_state": "state", "_formatter": "fmt", "_transformer": "xf", "_tracer"
          "_user_bounds": "bounds", "_current_transform": "xform"}
 
 
+UNABSTRACTED = set()        # state the worlds of this process could not abstract (see World._havoc_value)
+
+
 class World:
     """A havocked instance of `cls_name` in the static heap of an interpreter."""
 
@@ -35,6 +38,7 @@ class World:
         self.root_label = root_label
         self.universal = set(universal_lists)
         self.keep = set(keep_fields)
+        self.unabstracted = []
         self.labels = {}      # addr -> label
         self.I.open_value_hook = self.open_value
         self.I.ext_result = self.ext_result
@@ -96,6 +100,8 @@ class World:
         self._havoc(self.root, self.root_label, set())
         self._relate()
         I.heap = {}
+        # reported by the run as a floor failure (exit 2) unless it found violations anyway (gsverif.__main__)
+        UNABSTRACTED.update(self.unabstracted)
 
     # (object label, field) pairs that hold the same value in every reachable
     # state: both copies are written together by the only functions that write
@@ -168,7 +174,29 @@ class World:
             return v
         if isinstance(v, ExtV):
             return Unk(name, "str")
+        if isinstance(v, Tup) and self._assigned_outside_init(name):
+            # a structured value the analysis has no abstraction for, re-assigned by the methods: leaving it at its
+            # constructor value would silently ignore every state it can take
+            self.unabstracted.append(f"{name} (a tuple, {v!r} after construction, assigned again outside __init__)")
         return v
+
+    def _assigned_outside_init(self, name) -> bool:
+        label, _, field = name.rpartition(".")
+        try:
+            o = self.I.static_heap[self.ref(label).addr]
+        except AnalysisError:
+            return False
+        for ci in o.cls.mro():
+            for fn in ci.methods.values():
+                if fn.node.name == "__init__":
+                    continue
+                for n in ast.walk(fn.node):
+                    targets = n.targets if isinstance(n, ast.Assign) else ([n.target] if isinstance(n, (ast.AnnAssign, ast.AugAssign)) else [])
+                    for t in targets:
+                        for tt in (t.elts if isinstance(t, ast.Tuple) else [t]):
+                            if isinstance(tt, ast.Attribute) and tt.attr == field and isinstance(tt.value, ast.Name) and tt.value.id == "self":
+                                return True
+        return False
 
     def _assigned_non_none(self, name) -> bool:
         """Does some method of the owning class assign `self.<field>` a value other than None?"""
